@@ -290,3 +290,89 @@ func CallArg(cc *ssa.CallCommon, n int) ssa.Value {
 	}
 	return nil
 }
+
+// SwitchCasesReturningTrue evaluates, in a function whose body is a switch over constants, the case constants of the
+// clauses that return true.
+func (p *Prog) SwitchCasesReturningTrue(pkgRel, funcName string) ([]string, token.Pos, error) {
+	pk := p.Pkg(pkgRel)
+	if pk == nil {
+		return nil, token.NoPos, fmt.Errorf("package %s not found", pkgRel)
+	}
+	for _, f := range pk.Syntax {
+		for _, d := range f.Decls {
+			fd, ok := d.(*ast.FuncDecl)
+			if !ok || fd.Name.Name != funcName || fd.Recv != nil || fd.Body == nil {
+				continue
+			}
+			var out []string
+			var err error
+			ast.Inspect(fd.Body, func(n ast.Node) bool {
+				cc, ok := n.(*ast.CaseClause)
+				if !ok {
+					return true
+				}
+				retTrue := false
+				for _, st := range cc.Body {
+					if rs, ok := st.(*ast.ReturnStmt); ok && len(rs.Results) == 1 {
+						if tv, ok := pk.TypesInfo.Types[rs.Results[0]]; ok && tv.Value != nil && tv.Value.Kind() == constant.Bool && constant.BoolVal(tv.Value) {
+							retTrue = true
+						}
+					}
+				}
+				if !retTrue {
+					return true
+				}
+				if cc.List == nil {
+					err = fmt.Errorf("default clause returns true")
+				}
+				for _, e := range cc.List {
+					tv, ok := pk.TypesInfo.Types[e]
+					if !ok || tv.Value == nil {
+						err = fmt.Errorf("case %s is not constant", types.ExprString(e))
+						continue
+					}
+					out = append(out, constString(tv.Value))
+				}
+				return true
+			})
+			return out, fd.Pos(), err
+		}
+	}
+	return nil, token.NoPos, fmt.Errorf("func %s.%s not found", pkgRel, funcName)
+}
+
+// ElemsTable checks an already-evaluated element list against a spec.
+func (r *Report) ElemsTable(s TableSpec, pos string, elems []string, err error) {
+	rule := fmt.Sprintf("TABLE: %s within allowed set, disjoint from forbidden set", s.Var)
+	if err != nil {
+		r.Lost(s.ID, rule, err.Error())
+		return
+	}
+	r.Sites += len(elems)
+	r.checkElems(s, rule, pos, elems)
+}
+
+// AppendChainElems collects the element values that were appended to / stored in the slice value v:
+// follows append(x, lit...) chains and slice literals. fromCaller is true if the chain starts at a parameter.
+func AppendChainElems(v ssa.Value) (elems []ssa.Value, fromCaller bool) {
+	for depth := 0; depth < 10; depth++ {
+		v = stripConv(v)
+		switch x := v.(type) {
+		case *ssa.Call:
+			b, ok := x.Call.Value.(*ssa.Builtin)
+			if !ok || b.Name() != "append" || len(x.Call.Args) != 2 {
+				return elems, fromCaller
+			}
+			elems = append(elems, SliceLitElems(x.Call.Args[1])...)
+			v = x.Call.Args[0]
+			continue
+		case *ssa.Parameter:
+			return elems, true
+		case *ssa.Slice:
+			elems = append(elems, SliceLitElems(x)...)
+			return elems, fromCaller
+		}
+		return elems, fromCaller
+	}
+	return elems, fromCaller
+}
